@@ -66,6 +66,9 @@ VARIABLES stage,   \* "init" "kind" "case" "placed"
 vars == <<stage, k, e, c, addr, mem, cacheS, cacheO, out, last, steps>>
 
 N == Len(c.ops)
+\* sequences built as functions are turned into tuples at once (TLC normalises them lazily otherwise,
+\* which races with the state queue being written to disk by several workers)
+Tup(f) == SubSeq(f, 1, Len(f))
 Val(i) == mem[addr[i]]
 Other(i) == "o" \o ToString(i)
 E == e
@@ -76,7 +79,7 @@ ExposedIdx == SelectSeq([i \in 1..N |-> i], LAMBDA i : ~Hidden(i))
 FreshSlots == [p \in 1..Len(ExposedIdx) |-> addr[ExposedIdx[p]]]
 \* the slot list an Operands() call returns now
 OperandsNow == IF "cache-ops" \in Dev /\ cacheO.set /\ Len(cacheO.v) = Len(FreshSlots) THEN cacheO.v ELSE FreshSlots
-Remember == cacheO' = [set |-> TRUE, v |-> OperandsNow]
+Remember == cacheO' = [set |-> TRUE, v |-> Tup(OperandsNow)]
 \* what a client sees in a cell: the wrapper for a wrapped argument
 IsWrapperCell(cell) == \E i \in 1..N : addr[i] = cell /\ Wrapped(i)
 Visible(cell) == IF IsWrapperCell(cell) THEN "wrapper" ELSE mem[cell]
@@ -97,9 +100,9 @@ PickCase == /\ stage = "kind"
             /\ c' \in {x \in Cases(E) : x.fam \in {"config", "wrap"} /\ Len(x.ops) > 0 /\ Len(x.ops) <= MaxOps}
             /\ stage' = "case" /\ UNCHANGED <<k, e, addr, mem, cacheS, cacheO, out, last, steps>>
 Place == /\ stage = "case"
-         /\ addr' = [i \in 1..N |-> i]
+         /\ addr' = Tup([i \in 1..N |-> i])
          /\ \E i \in 1..N : \E j \in i..N :
-              mem' = [x \in 1..N |-> IF x = i \/ x = j THEN "a" ELSE Other(x)]
+              mem' = Tup([x \in 1..N |-> IF x = i \/ x = j THEN "a" ELSE Other(x)])
          /\ stage' = "placed" /\ UNCHANGED <<k, e, c, cacheS, cacheO, out, last, steps>>
 
 Call == stage = "placed" /\ steps < MaxCalls /\ steps' = steps + 1 /\ UNCHANGED <<stage, k, e>>
@@ -107,8 +110,8 @@ Call == stage = "placed" /\ steps < MaxCalls /\ steps' = steps + 1 /\ UNCHANGED 
 QuerySuccs ==
   /\ Call /\ E.cat = "term"
   /\ out' = IF "cache-succs" \in Dev /\ cacheS.set THEN cacheS.v
-            ELSE IF "dedup-succs" \in Dev THEN Dedup(Targets) ELSE Targets
-  /\ cacheS' = IF cacheS.set THEN cacheS ELSE [set |-> TRUE, v |-> Targets]
+            ELSE IF "dedup-succs" \in Dev THEN Dedup(Targets) ELSE Tup(Targets)
+  /\ cacheS' = IF cacheS.set THEN cacheS ELSE [set |-> TRUE, v |-> Tup(Targets)]
   /\ last' = [op |-> "succs", slot |-> 0]
   /\ UNCHANGED <<c, addr, mem, cacheO>>
 
@@ -124,8 +127,8 @@ ReplaceOperand ==
 
 ReplaceAllUses ==
   /\ Call /\ Remember
-  /\ mem' = [cell \in 1..Len(mem) |->
-               IF (\E p \in 1..Len(OperandsNow) : OperandsNow[p] = cell) /\ Visible(cell) = "a" THEN "n" ELSE mem[cell]]
+  /\ mem' = Tup([cell \in 1..Len(mem) |->
+               IF (\E p \in 1..Len(OperandsNow) : OperandsNow[p] = cell) /\ Visible(cell) = "a" THEN "n" ELSE mem[cell]])
   /\ last' = [op |-> "rauw", slot |-> 0]
   /\ UNCHANGED <<c, addr, cacheS, out>>
 
@@ -140,8 +143,8 @@ Repeated(i) == E.groups[GroupOf(i)].ar \in {"many", "many1", "bundles"}
 Move(ss, i, v) ==
   LET idx == SelectSeq([x \in 1..N |-> x], LAMBDA x : x \in ss)
       pos(x) == CHOOSE p \in 1..Len(idx) : idx[p] = x
-  IN /\ addr' = [x \in 1..N |-> IF x \in ss THEN Len(mem) + pos(x) ELSE addr[x]]
-     /\ mem' = mem \o [p \in 1..Len(idx) |-> IF idx[p] = i THEN v ELSE Val(idx[p])]
+  IN /\ addr' = Tup([x \in 1..N |-> IF x \in ss THEN Len(mem) + pos(x) ELSE addr[x]])
+     /\ mem' = Tup(mem \o [p \in 1..Len(idx) |-> IF idx[p] = i THEN v ELSE Val(idx[p])])
 
 DirectAssign ==
   /\ Call /\ \E i \in 1..N : mem' = [mem EXCEPT ![addr[i]] = "n"] /\ last' = [op |-> "assign", slot |-> i]
@@ -165,14 +168,14 @@ Start(gi) == LET before == {x \in 1..N : GroupOf(x) < gi} IN Cardinality(before)
 Resize(gi, d) ==
   LET g == E.groups[gi]
       m == Len(g.mem)
-      cfg2 == [c.cfg EXCEPT !.cnt[gi] = @ + d]
+      cfg2 == [c.cfg EXCEPT !.cnt = Tup([x \in 1..Len(c.cfg.cnt) |-> IF x = gi THEN c.cfg.cnt[x] + d ELSE c.cfg.cnt[x]])]
       c2 == MkCase(E, c.fam, c.cls, cfg2, <<>>, c.attrs, TRUE, c.wrap)
       cut == Start(gi) + c.cfg.cnt[gi] * m          \* operands up to the end of the group
   IN /\ g.ar \in {"many", "many1"} /\ c.cfg.cnt[gi] + d >= g.min /\ c.cfg.cnt[gi] + d <= MaxOf(E, g, c.cls)
      /\ c' = c2
      /\ IF d = 1
-        THEN /\ addr' = SubSeq(addr, 1, cut) \o [x \in 1..m |-> Len(mem) + x] \o SubSeq(addr, cut + 1, N)
-             /\ mem' = mem \o [x \in 1..m |-> "n"]
+        THEN /\ addr' = Tup(SubSeq(addr, 1, cut) \o [x \in 1..m |-> Len(mem) + x] \o SubSeq(addr, cut + 1, N))
+             /\ mem' = Tup(mem \o [x \in 1..m |-> "n"])
         ELSE /\ addr' = SubSeq(addr, 1, cut - m) \o SubSeq(addr, cut + 1, N)
              /\ mem' = mem
 AppendRep == /\ Call /\ \E gi \in 1..Len(E.groups) : Resize(gi, 1) /\ last' = [op |-> "append", slot |-> gi]
